@@ -379,12 +379,13 @@ def R6_swap_growth_handoff(run):
     for ab in (False, True):
         ctx = {"a_to_b": ab}
         m = SL.SwapModel(facts, ctx)
-        cu = calls_to(sw, ends("calculate_update"), ctx=ctx, cut=True)
+        # (calculate_update is always analysed inlined into the loop; the crossing is its next_tick_cross_update call)
+        cu = calls_to(sw, ends("next_tick_cross_update"), ctx=ctx, cut=True)
         ok = len(cu) == 1
         found = None
         if ok:
             a = cu[0][2]
-            ga, gb = a[3], a[4]
+            ga, gb = a[1], a[2]
             found = "(%s, %s)" % (sh(ga, 50), sh(gb, 50))
             if ab:
                 ok = m.is_var(ga, "fee_growth_input") and is_field(gb, "fee_growth_global_b") and is_param(strip(gb)[1], "whirlpool")
@@ -400,7 +401,7 @@ def R6_swap_growth_handoff(run):
     m = SL.SwapModel(facts, {})
     var = m.var("fee_growth_input")
     upd = [(b, t) for (b, _, t) in m.defs(var) if mentions(t, lambda s_: s_[0] == "call" and s_[1].endswith("calculate_fees"))]
-    cross = calls_to(sw, ends("calculate_update"), ctx={}, cut=True)
+    cross = calls_to(sw, ends("next_tick_cross_update"), ctx={}, cut=True)
     step = calls_to(sw, ends("compute_swap"), ctx={}, cut=True)
     fees = calls_to(sw, ends("calculate_fees"), ctx={}, cut=True)
     ok = len(upd) == 1 and len(cross) == 1 and len(step) == 1 and len(fees) == 1
@@ -413,21 +414,16 @@ def R6_swap_growth_handoff(run):
         pvc = prov_of(sw, {}, cut=True)
         t_ = sw.blocks[cb]["t"]
         sites = set()
-        for a_ in t_["a"][3:5]:
+        for a_ in t_["a"][1:3]:
             sites |= var_read_sites(sw, pvc, a_, cb, len(sw.blocks[cb]["s"]), var)
         usi = max([d_[1] for d_ in pvc.defs.get(var, []) if d_[0] == ub and d_[2] is None] or [-1])
         ok = bool(sites) and all((b_ == ub and s_ > usi) or (b_ != ub and cfg.dominates(sw, ub, b_) and b_ in cfg.reach(sw, ub, cut_blocks=[sb])) for (b_, s_) in sites)
     run.check("R6", "growth-booked-before-crossing", ok, "in one loop iteration the order must be compute_swap -> calculate_fees -> running growth := its result -> tick crossing; "
               "otherwise a tick reached by a step is flipped against a growth that lacks that step's own fee", loc=sw.loc(), detail="step fee is in the running growth before the crossing of the same iteration")
-    # next_tick_cross_update receives them unchanged
-    cu = facts.need_fn("manager::swap_manager::calculate_update")
-    cs = calls_to(cu, ends("next_tick_cross_update"))
-    ok = len(cs) == 1 and is_param(cs[0][2][0], "tick") and is_param(cs[0][2][1], "fee_growth_global_a") and is_param(cs[0][2][2], "fee_growth_global_b") and is_param(cs[0][2][3], "reward_infos")
-    run.check("R6", "calculate_update-forwards", ok, "calculate_update does not forward (tick, growth_a, growth_b, reward_infos) to next_tick_cross_update", loc=cu.loc(), detail="forwarded in order")
     # the reward infos used for crossings are the ones brought up to date at swap start
     m = SL.SwapModel(facts, {})
-    cu2 = calls_to(sw, ends("calculate_update"), ctx={}, cut=True)
-    ok = len(cu2) == 1 and is_call(cu2[0][2][5], "next_whirlpool_reward_infos")
+    cu2 = calls_to(sw, ends("next_tick_cross_update"), ctx={}, cut=True)
+    ok = len(cu2) == 1 and is_call(cu2[0][2][3], "next_whirlpool_reward_infos")
     run.check("R6", "reward-infos-updated", ok, "crossings do not use next_whirlpool_reward_infos(whirlpool, timestamp)", loc=sw.loc(), detail="reward infos := next_whirlpool_reward_infos(pool, timestamp)?")
 
 
